@@ -59,18 +59,7 @@ DESCRIPTION = {
 }
 
 
-class _ThreadingShim:
-    def __getattr__(self, name):
-        import threading as _t
-
-        return getattr(_t, name)
-
-    @staticmethod
-    def get_ident():
-        import threading as _t
-
-        t = current()
-        return t.ident if t is not None else _t.get_ident()
+from ..sched import ThreadingShim as _ThreadingShim  # noqa: E402  (simulated identity: get_ident, enumerate, current_thread)
 
 
 # ---------------------------------------------------------------------------
@@ -317,7 +306,10 @@ def run_one(spec: dict) -> dict:
                 if len(prog) >= 3 and hist[-1] is None and len({h for h in hist[:-1] if h}) >= 2:
                     probe("history_s1_s2_none")
             return body
-        sched.spawn(f"t{i}", mk(), ident=5000 + i)
+        st_ = sched.spawn(f"t{i}", mk(), ident=5000 + i)
+        if i in (spec.get("foreign") or []):
+            st_.ctx["foreign"] = True  # a thread the threading module does not list (raw _thread / C-created request thread)
+            probe("foreign_thread")
     if spec.get("operator"):
         def op_body():
             t = current()
@@ -542,10 +534,12 @@ def gen(seed) -> dict:
     else:
         prog = [{"tpl": g.choice(tids), "S": pre, "mech": "preimport" if pre else "none"} for _ in range(g.choice([1, 2]))]
         threads.append(prog)
+    fg = stream(seed, "gen-foreign")
     return {
         "seed": seed, "pre_env": ({ENVVAR: pre} if pre else {}), "hash_seed": g.choice([0, 1]), "threads": threads, "operator": operator,
         "sched": g.choice(["random", "sticky", "pct1", "pct2", "pct3", "retbias"]), "line": g.random() < 0.7,
         "gran": g.choice(["line"] * 11 + ["instr"]),
+        "foreign": [i for i in range(len(threads)) if len(threads) > 1 and fg.random() < 0.25],
     }
 
 
@@ -669,6 +663,7 @@ def shrink_candidates(spec):
         for i in range(len(spec["threads"])):
             s = cp()
             del s["threads"][i]
+            s["foreign"] = [(f - 1 if f > i else f) for f in (s.get("foreign") or []) if f != i]
             if s.get("schedule") is not None:
                 s["schedule"] = [(-1 if c == i else (c - 1 if c > i else c)) for c in s["schedule"]]
             out.append(s)
